@@ -258,6 +258,38 @@ func checkC13(c *fw.Ctx) {
 			c.Ok("3 body", "the body is read on every path to a reconstructed request", c.P.Pos(read.Pos()), "")
 		}
 	}
+	// ... and it is read to its end: a reader that stops after as many bytes as the Content-Length
+	// header announced reads nothing of a chunked body (ContentLength is -1 then, and a limit
+	// below zero means "no bytes"), so a body the signature does not cover is let through
+	{
+		construct := "the body is read to its end, not up to the announced Content-Length"
+		n := 0
+		bad := ""
+		for _, dc := range deepCallsTo(read, fw.NameIs("io.LimitReader", "net/http.MaxBytesReader", "io.CopyN")) {
+			args := dc.Call.Common().Args
+			lim := args[len(args)-1]
+			n++
+			if sg := fw.SigIn(dc.Fr, lim); strings.Contains(sg, ".ContentLength") {
+				bad = fw.CalleeName(dc.Call) + " at " + c.P.Pos(dc.Call.Pos()) + " limits the body to " + sg
+			}
+		}
+		for _, di := range fw.DeepInstrs(read, nil) {
+			// &io.LimitedReader{R: body, N: req.ContentLength}
+			st, ok := di.Instr.(*ssa.Store)
+			if !ok {
+				continue
+			}
+			if fa, isFa := st.Addr.(*ssa.FieldAddr); isFa && strings.HasSuffix(fa.X.Type().String(), "io.LimitedReader") && strings.Contains(fw.SigIn(di.Fr, st.Val), ".ContentLength") {
+				n++
+				bad = "an io.LimitedReader built at " + c.P.Pos(fw.InstrPos(st)) + " limits the body to " + fw.SigIn(di.Fr, st.Val)
+			}
+		}
+		if bad != "" {
+			c.Fail("3 body", construct, c.P.Pos(read.Pos()), bad+": for a body sent with chunked transfer encoding ContentLength is -1 and nothing is read, so a request signed without a body verifies with any chunked body attached (and a correctly signed chunked request is refused)")
+		} else {
+			c.Ok("3 body", construct, c.P.Pos(read.Pos()), fmt.Sprintf("%d limiting reader(s), none bounded by the announced length", n))
+		}
+	}
 	// header admission: missing origin/key/sig, conflicting origins
 	var errConds []string
 	for _, r := range fw.Returns(read) {
